@@ -106,3 +106,9 @@ func VerifWrapCPUAllocator(b policyapi.Backend, wrap func(cpuallocator.CPUAlloca
 		p.cpuAllocator = wrap(p.cpuAllocator)
 	}
 }
+
+// VerifResetGlobals resets the package-level state a fresh process would
+// start with (one simulated incarnation = one process).
+func VerifResetGlobals() {
+	coldStartOff = false
+}
